@@ -43,7 +43,7 @@ ASSUMPTIONS = [
 MINIMUMS = {"monitor:window": 3000, "bursts_over_limit": 1000, "calls_that_waited": 1000, "monitor:no-needless-delay": 3000}
 JOBS = {"quick": 4, "thorough": 16}
 LEVEL_TEXT = (
-    "Every arrival pattern of up to 5 calls with gaps from {0, 1/4, 1/2, 1, 5/4, 2} periods is run for limits 1-4 (period as float and as timedelta) in exact "
+    "Every arrival pattern of up to 5 calls with gaps from {0, 1/4, 1/2, 1, 5/4, 2} periods is run for limits 1-4 (period as float and as timedelta - sub-second, a day, 36 hours, a week) in exact "
     "virtual time, plus seeded random patterns of up to 12 calls with durations up to 3 periods, failing functions and a cancelled caller; each history is "
     "checked for the window bound at every start, FIFO start order, promptness when the window has room, outcome identity and quiescence progress."
 )
@@ -199,8 +199,10 @@ def run_case(R: Recorder, case: dict[str, Any], verbose: bool = False) -> None:
 
 def exhaustive(tier: str):  # noqa: ANN201
     for limit in (1, 2, 3, 4):
-        for pform, period in (("float", 1.0), ("timedelta", 0.5)):
-            for n in range(1, 6):
+        for pform, period in (("float", 1.0), ("timedelta", 0.5), ("timedelta", 86400.0 if limit % 2 else 129600.0), ("timedelta", 1.5)):
+            if period > 10 and limit > 2:
+                continue
+            for n in range(1, 6 if period < 10 else 5):
                 for gaps in itertools.product(GAPS, repeat=n - 1):
                     yield {"limit": limit, "period": period, "pform": pform, "gaps": [0, *gaps]}
     for n in (1, 2, 3):
@@ -211,7 +213,7 @@ def exhaustive(tier: str):  # noqa: ANN201
 def random_case(rng: random.Random) -> dict[str, Any]:
     n = rng.randint(3, 12)
     limit = rng.randint(1, 4)
-    period = rng.choice([1.0, 0.5, 2.0, 1])
+    period = rng.choice([1.0, 0.5, 2.0, 1, 1.5, 0.25, 86400.0, 129600.0, 604800.0, 3600.0])
     pform = rng.choice(["float", "timedelta"])
     gaps = [0] + [rng.choice(GAPS + (0, 0, 1, 3)) for _ in range(n - 1)]
     case: dict[str, Any] = {"limit": limit, "period": float(period), "pform": pform, "gaps": gaps,
